@@ -3905,6 +3905,380 @@ func (r *vpRun) oddShapes(rng *rand.Rand) {
 // generated scenarios) under a watchdog: a scenario that does not come back within the limit is a hang of the
 // implementation (C09/C13: no operation hangs). It is reported as a monitor failure with the scenario's name and
 // the run stops there - the stuck goroutine still owns the world.
+// buildOverlap (C17 "Build takes a snapshot", C08, C07, C09): one goroutine keeps building one collection while another
+// keeps changing it. Every method of the collection takes the collection's lock, so each Build sees the registry
+// before or after each change, never in between: a provider Build returned is the provider of a registry that passed
+// validation. Monitors: (a) dependency removed and re-added: a provider that was built resolves the consumer from a
+// fresh scope; (b) scoped member joining a group that a singleton consumes: either Build reports the lifetime
+// conflict or the singleton receives no scoped member; (c) a scoped initializer added after a removal: never both the
+// removed service and the later initializer in one provider. No op lines: the model is sequential; what is compared is
+// the monitors' verdict.
+type voDep struct{}
+type voUse struct{ d *voDep }
+type voMem struct{ scoped bool }
+type voHost struct{ ms []*voMem }
+type voHostIn struct {
+	In
+	Ms []*voMem `group:"vo"`
+}
+type voGone struct{}
+
+func (r *vpRun) buildOverlap(rng *rand.Rand) {
+	w := r.newWorld(rng)
+	defer r.emit("p verdict", "ok")
+	kind := rng.Intn(3)
+	deadline := time.Now().Add(1500 * time.Millisecond)
+	switch kind {
+	case 0:
+		c := NewCollection()
+		c.AddTransient(func() *voDep { return &voDep{} })
+		c.AddTransient(func(d *voDep) *voUse { return &voUse{d: d} })
+		var stop atomic.Bool
+		done := make(chan struct{})
+		go func() {
+			defer close(done)
+			for !stop.Load() {
+				c.Remove(reflect.TypeOf(&voDep{}))
+				c.AddTransient(func() *voDep { return &voDep{} })
+			}
+		}()
+		built := 0
+		for i := 0; i < 4000 && time.Now().Before(deadline); i++ {
+			p, err := c.Build()
+			if err != nil {
+				if !errors.Is(err, ErrServiceNotFound) {
+					w.fail("C08,C17,C15", "build-overlap scenario: Build overlapping Remove/Add of a dependency failed with %v (the only legitimate failure is the missing dependency)", err)
+					break
+				}
+				continue
+			}
+			built++
+			sc, e := p.CreateScope(nil)
+			if e == nil {
+				if _, e2 := Resolve[*voUse](sc); e2 != nil {
+					w.fail("C08,C17,C09", "build-overlap scenario: Build (overlapping Remove/Add of the consumer's dependency) returned a provider, and resolving the consumer from a fresh scope fails: %v", e2)
+					p.Close()
+					break
+				}
+			}
+			p.Close()
+		}
+		stop.Store(true)
+		<-done
+		r.stats["build_overlap_built"] += built
+	case 1:
+		bad := false
+		n := 0
+		for ; n < 400 && time.Now().Before(deadline) && !bad; n++ {
+			c := NewCollection()
+			c.AddSingleton(func(in voHostIn) *voHost { return &voHost{ms: in.Ms} })
+			c.AddSingleton(func() *voMem { return &voMem{} }, Group("vo"))
+			spin := rng.Intn(3000)
+			done := make(chan struct{})
+			go func() {
+				defer close(done)
+				for k := 0; k < spin; k++ {
+					_ = k * k
+				}
+				c.AddScoped(func() *voMem { return &voMem{scoped: true} }, Group("vo"))
+			}()
+			p, err := c.Build()
+			<-done
+			if err != nil {
+				var le *LifetimeConflictError
+				if !errors.As(err, &le) {
+					w.fail("C07,C17,C15", "build-overlap scenario: Build overlapping AddScoped(member of a group a singleton consumes) failed with %v (the only legitimate failure is the lifetime conflict)", err)
+					bad = true
+				}
+				continue
+			}
+			if h, e := Resolve[*voHost](p); e == nil {
+				for _, m := range h.ms {
+					if m.scoped {
+						w.fail("C07,C17,C09", "build-overlap scenario: Build overlapping AddScoped(member of a group a singleton consumes) returned a provider whose singleton received an instance of the scoped registration")
+						bad = true
+					}
+				}
+			}
+			p.Close()
+		}
+		r.stats["build_overlap_rounds"] += n
+	default:
+		bad := false
+		n := 0
+		for ; n < 400 && time.Now().Before(deadline) && !bad; n++ {
+			c := NewCollection()
+			var ran atomic.Int32
+			gate := make(chan struct{})
+			c.AddSingleton(func() *voDep { <-gate; return &voDep{} }) // Build is inside the singleton phase while the gate is shut
+			c.AddTransient(func() *voGone { return &voGone{} })
+			done := make(chan struct{})
+			go func() {
+				defer close(done)
+				c.Remove(reflect.TypeOf(&voGone{}))
+				c.AddScoped(func() { ran.Add(1) })
+			}()
+			go func() {
+				for k := rng.Intn(2000); k > 0; k-- {
+					_ = k * k
+				}
+				close(gate)
+			}()
+			p, err := c.Build()
+			<-done
+			if err != nil {
+				w.fail("C17,C15", "build-overlap scenario: Build overlapping Remove + AddScoped(initializer) failed: %v", err)
+				break
+			}
+			before := ran.Load()
+			sc, e := p.CreateScope(nil)
+			if e == nil {
+				_, eg := Resolve[*voGone](sc)
+				if eg == nil && ran.Load() > before {
+					w.fail("C17,C09", "build-overlap scenario: one provider both resolves the service that was removed and runs the scope initializer that was registered after the removal: Build did not take a snapshot")
+					bad = true
+				}
+			}
+			p.Close()
+		}
+		r.stats["build_overlap_rounds"] += n
+	}
+	r.stats["build_overlap"]++
+}
+
+// pointerParamObject (C04, C02): a constructor may take its parameter object by pointer and keep it. The object a
+// constructor received is its own: no later resolution - in this or any other scope - rewrites it.
+type vqDep struct{ n int }
+type vqIn struct {
+	In
+	D  *vqDep
+	Sc Scope
+	O  *vqOpt `optional:"true"`
+}
+type vqOpt struct{}
+type vqSvc struct {
+	in  *vqIn
+	d0  *vqDep
+	sc0 Scope
+}
+
+func (r *vpRun) pointerParamObject(rng *rand.Rand) {
+	w := r.newWorld(rng)
+	defer r.emit("p verdict", "ok")
+	c := NewCollection()
+	n := 0
+	life := []Lifetime{Scoped, Transient}[rng.Intn(2)]
+	e1 := c.(*collection).addService(func() *vqDep { n++; return &vqDep{n: n} }, life)
+	e2 := c.(*collection).addService(func(in *vqIn) *vqSvc { return &vqSvc{in: in, d0: in.D, sc0: in.Sc} }, life)
+	if e1 != nil || e2 != nil {
+		w.fail("C17", "pointer-parameter-object scenario: a valid registration was rejected: %v %v", e1, e2)
+		return
+	}
+	var p Provider
+	var err error
+	if guard(w, "Build", func() { p, err = c.Build() }) {
+		return
+	}
+	if err != nil {
+		w.fail("C08", "pointer-parameter-object scenario: Build rejected a valid registration set: %v", err)
+		return
+	}
+	defer p.Close()
+	var svcs []*vqSvc
+	var scs []Scope
+	for i := 0; i < 6; i++ {
+		sc, e := p.CreateScope(nil)
+		if e != nil {
+			continue
+		}
+		var s *vqSvc
+		if guard(w, "Resolve", func() { s, e = Resolve[*vqSvc](sc) }) {
+			return
+		}
+		if e != nil || s == nil {
+			w.fail("C04", "pointer-parameter-object scenario: a constructor taking *struct{In; ...} does not resolve: %v", e)
+			return
+		}
+		svcs = append(svcs, s)
+		scs = append(scs, sc)
+		if rng.Intn(3) == 0 {
+			sc.Close()
+		}
+	}
+	seen := map[*vqIn]int{}
+	for i, s := range svcs {
+		if s.in == nil {
+			w.fail("C04", "pointer-parameter-object scenario: the constructor received a nil parameter object")
+			return
+		}
+		if s.in.D != s.d0 || s.in.Sc != s.sc0 || s.sc0 != scs[i] {
+			w.fail("C04,C02,C18", "pointer-parameter-object scenario: the parameter object kept by the service built in scope #%d was rewritten by a later resolution (dependency %p, was %p)", i, s.in.D, s.d0)
+			return
+		}
+		if j, dup := seen[s.in]; dup {
+			w.fail("C04,C02,C03", "pointer-parameter-object scenario: the services built in scopes #%d and #%d received the same parameter object", j, i)
+			return
+		}
+		seen[s.in] = i
+	}
+	r.stats["pointer_param_object"]++
+}
+
+// rootHandle (C10 "never early", C01): the provider's own scope can be obtained as a Scope (resolve the built-in
+// Scope from the provider, or take it as a parameter of a singleton constructor) and closing that handle is legal: it
+// releases what was resolved *from the provider* (root-scoped and transient instances). The singletons belong to the
+// provider: they stay open and usable from every other scope until Provider.Close.
+func (r *vpRun) rootHandle(rng *rand.Rand) {
+	w := r.newWorld(rng)
+	defer r.emit("p verdict", "ok")
+	c := NewCollection()
+	var viaCtor Scope
+	e1 := c.AddSingleton(func(sc Scope) *vlA { viaCtor = sc; return &vlA{} })
+	e2 := c.AddSingleton(func(_ *vlA) *vlB { return &vlB{} }, Name("b"))
+	e3 := c.AddScoped(func(_ *vlA) *vlC { return &vlC{} })
+	if e1 != nil || e2 != nil || e3 != nil {
+		w.fail("C17", "root-handle scenario: a valid registration was rejected: %v %v %v", e1, e2, e3)
+		return
+	}
+	var p Provider
+	var err error
+	if guard(w, "Build", func() { p, err = c.Build() }) {
+		return
+	}
+	if err != nil {
+		w.fail("C08", "root-handle scenario: Build rejected a valid registration set: %v", err)
+		return
+	}
+	a, ea := Resolve[*vlA](p)
+	b, eb := ResolveKeyed[*vlB](p, "b")
+	c0, ec := Resolve[*vlC](p) // owned by the provider's own scope
+	sc1, es := p.CreateScope(nil)
+	if ea != nil || eb != nil || ec != nil || es != nil {
+		w.fail("C08", "root-handle scenario: resolution failed: %v %v %v %v", ea, eb, ec, es)
+		p.Close()
+		return
+	}
+	c1, _ := Resolve[*vlC](sc1)
+	root := viaCtor
+	if rng.Intn(2) == 0 {
+		root, err = Resolve[Scope](p)
+		if err != nil {
+			w.fail("C18", "root-handle scenario: the built-in Scope does not resolve from the provider: %v", err)
+			p.Close()
+			return
+		}
+	}
+	guard(w, "Scope.Close", func() { root.Close() })
+	if n := c0.closes.Load(); n != 1 {
+		w.fail("C10", "root-handle scenario: closing the provider's own scope closed the scoped instance it owns %d times", n)
+	}
+	if a.closes.Load() != 0 || b.closes.Load() != 0 {
+		w.fail("C10,C11,C01", "root-handle scenario: closing the provider's own scope (a Scope handle) closed singletons (A %d times, B %d times) while the provider is open and another scope is using them", a.closes.Load(), b.closes.Load())
+	}
+	if c1 != nil && c1.closes.Load() != 0 {
+		w.fail("C10", "root-handle scenario: closing the provider's own scope closed an instance owned by another scope")
+	}
+	if a2, e := Resolve[*vlA](sc1); e != nil || a2 != a {
+		w.fail("C01", "root-handle scenario: after the provider's own scope was closed another scope resolves singleton A to %p (%v), was %p", a2, e, a)
+	}
+	sc1.Close()
+	guard(w, "Provider.Close", func() { p.Close() })
+	if a.closes.Load() != 1 || b.closes.Load() != 1 || c0.closes.Load() != 1 || (c1 != nil && c1.closes.Load() != 1) {
+		w.fail("C10", "root-handle scenario: after Provider.Close: singleton A closed %d times, B %d, the provider scope's instance %d", a.closes.Load(), b.closes.Load(), c0.closes.Load())
+	}
+	r.stats["root_handle"]++
+}
+
+// valueDisposables (C10, C12): services need not be pointers. A small comparable struct with a value-receiver Close is
+// a Disposable like any other; two constructor runs that return equal values are still two instances, each owed one
+// Close - as singletons (keyed, group members), scoped and transient - and a failing Close of each is reported.
+type vhLog struct {
+	n    atomic.Int32
+	fail bool
+}
+type vhHandle struct{ log *vhLog }
+
+func (h vhHandle) Close() error {
+	h.log.n.Add(1)
+	if h.log.fail {
+		return errors.New("vh close failed")
+	}
+	return nil
+}
+
+func (r *vpRun) valueDisposables(rng *rand.Rand) {
+	w := r.newWorld(rng)
+	defer r.emit("p verdict", "ok")
+	c := NewCollection()
+	lg := &vhLog{fail: rng.Intn(3) == 0}
+	life := []Lifetime{Singleton, Scoped, Transient}[rng.Intn(3)]
+	var errs []error
+	k := 2 + rng.Intn(3)
+	grouped := rng.Intn(2) == 0
+	for i := 0; i < k; i++ {
+		if grouped {
+			errs = append(errs, c.(*collection).addService(func() vhHandle { return vhHandle{log: lg} }, life, Group("vh")))
+		} else {
+			errs = append(errs, c.(*collection).addService(func() vhHandle { return vhHandle{log: lg} }, life, Name("h"+strconv.Itoa(i))))
+		}
+	}
+	for _, e := range errs {
+		if e != nil {
+			w.fail("C17", "value-disposables scenario: a valid registration was rejected: %v", e)
+			return
+		}
+	}
+	var p Provider
+	var err error
+	if guard(w, "Build", func() { p, err = c.Build() }) {
+		return
+	}
+	if err != nil {
+		w.fail("C08", "value-disposables scenario: Build rejected a valid registration set: %v", err)
+		return
+	}
+	sc, e := p.CreateScope(nil)
+	if e != nil {
+		p.Close()
+		return
+	}
+	made := 0
+	if grouped {
+		if l, e := ResolveGroup[vhHandle](sc, "vh"); e != nil || len(l) != k {
+			w.fail("C04", "value-disposables scenario: the group of %d value-typed services resolves to %d members (%v)", k, len(l), e)
+		}
+		made = k
+	} else {
+		for i := 0; i < k; i++ {
+			if _, e := ResolveKeyed[vhHandle](sc, "h"+strconv.Itoa(i)); e != nil {
+				w.fail("C04", "value-disposables scenario: a value-typed keyed service does not resolve: %v", e)
+			}
+		}
+		made = k
+	}
+	var ce error
+	guard(w, "Scope.Close", func() { ce = sc.Close() })
+	if life != Singleton {
+		if n := int(lg.n.Load()); n != made {
+			w.fail("C10,C12", "value-disposables scenario: the scope created %d %v instances of a comparable value type with Close (equal values); its Close closed %d", made, life, n)
+		}
+		if (ce != nil) != lg.fail {
+			w.fail("C12", "value-disposables scenario: Scope.Close: Close methods fail=%v, returned error=%v", lg.fail, ce)
+		}
+	} else if n := lg.n.Load(); n != 0 {
+		w.fail("C10", "value-disposables scenario: Scope.Close closed %d singletons", n)
+	}
+	var pe error
+	guard(w, "Provider.Close", func() { pe = p.Close() })
+	if n := int(lg.n.Load()); n != made {
+		w.fail("C10,C12", "value-disposables scenario: the container created %d %v instances of a comparable value type with Close (equal values); after Provider.Close %d Close calls were made", made, life, n)
+	}
+	if life == Singleton && (pe != nil) != lg.fail {
+		w.fail("C12", "value-disposables scenario: Provider.Close: Close methods fail=%v, returned error=%v", lg.fail, pe)
+	}
+	r.stats["value_disposables"]++
+}
+
 func (r *vpRun) watched(name string, f func()) (hung bool) {
 	done := make(chan struct{})
 	go func() {
@@ -4033,6 +4407,30 @@ func TestVerifCore(t *testing.T) {
 		}
 		if it%50 == 27 {
 			if r.watched("varyingConcrete", func() { r.varyingConcrete(rng) }) {
+				break
+			}
+			continue
+		}
+		if it%50 == 1 {
+			if r.watched("valueDisposables", func() { r.valueDisposables(rng) }) {
+				break
+			}
+			continue
+		}
+		if it%50 == 49 {
+			if r.watched("rootHandle", func() { r.rootHandle(rng) }) {
+				break
+			}
+			continue
+		}
+		if it%50 == 39 {
+			if r.watched("pointerParamObject", func() { r.pointerParamObject(rng) }) {
+				break
+			}
+			continue
+		}
+		if it%50 == 33 || it%50 == 11 || it%50 == 21 {
+			if r.watched("buildOverlap", func() { r.buildOverlap(rng) }) {
 				break
 			}
 			continue
